@@ -672,7 +672,7 @@ def skip_trivia(ctx, ln, seen_def):
         ln.used = True
         if ctx.pending_docs:
             texts = [t for _, t in ctx.pending_docs]
-            if not seen_def and is_version_header(texts):
+            if not seen_def:          # a comment block closed by a blank line before the first definition is the file header, whatever it says
                 ctx.header += texts
                 ctx.pending_docs = []
             else:
